@@ -36,6 +36,7 @@ type explorer struct {
 	w        *hx.Worker
 	execs    int64
 	maxExecs int64
+	deadline time.Time
 	capped   bool
 	pointsLo int
 	pointsHi int
@@ -122,8 +123,8 @@ func choicesOf(x *vsched.Sched) []int {
 // (free choices at the very first point); the subtrees below levels 0 and 1 are distributed over the
 // shards of the job by the index of the point they branch at.
 func (e *explorer) explore(prefix []int, level int) {
-	if e.maxExecs > 0 && e.execs >= e.maxExecs {
-		e.capped = true
+	if (e.maxExecs > 0 && e.execs >= e.maxExecs) || (!e.deadline.IsZero() && time.Now().After(e.deadline)) {
+		e.capped = true // a budget, never an oracle: what was explored below the cap is reported, the cap is reported
 		return
 	}
 	x := e.run(prefix)
@@ -186,6 +187,9 @@ type jobT struct {
 func runSchedule(w *hx.Worker, j jobT, maxExecs int64) {
 	sc := scen.Scenarios()[j.sc]
 	e := &explorer{sc: sc, expected: expectedOf(sc), bound: j.bound, onlySync: j.onlySync, w: w, maxExecs: maxExecs, outcomes: map[string]bool{}, shard: j.shard, nshards: j.nshards}
+	if maxExecs > 60000 {
+		e.deadline = time.Now().Add(3 * time.Minute) // thorough tier: scenarios whose executions are long (Build under the scheduler) stop here
+	}
 	e.explore(nil, 0)
 	mode := fmt.Sprintf("bound=%d", j.bound)
 	if j.nshards > 1 {
@@ -492,7 +496,7 @@ func plan(c *hx.Ctx) *hx.Plan {
 	depth, rounds := 3, 300
 	var maxExecs int64 = 60000
 	if !c.Quick() {
-		depth, rounds, maxExecs = 4, 3000, 20000
+		depth, rounds, maxExecs = 4, 3000, 200000
 	}
 	return &hx.Plan{
 		N: len(js),
@@ -583,7 +587,7 @@ func subMain(i int, tier string) {
 	js := jobsFor(quick)
 	var maxExecs int64 = 60000
 	if !quick {
-		maxExecs = 3000000
+		maxExecs = 200000 // per (scenario, bound, shard); with the 3-minute budget per shard below
 	}
 	w := hx.NewReplayWorker()
 	runSchedule(w, js[i], maxExecs)
